@@ -459,18 +459,26 @@ def get_skip_if_condition(skip_if, _locals, operand_2):
         >>> get_skip_if_condition(cond, locals_dict, 'other_var')
         '== other_var'
     """
-    # TODO: To avoid circular import
-    from .class_helper import is_builtin
-
     if skip_if is None:
         return False
 
     if skip_if.t_or_f:  # Truthy or falsy condition, no operand
         return True
 
-    if is_builtin(skip_if.val):
+    val = skip_if.val
+
+    # Only inline literals whose `repr()` evaluates back to the very same
+    # value: the builtin singletons, and plain `int` / `str` values for the
+    # (non-identity) comparison operators.
+    if val is None or val is True or val is False or val is ...:
         return str(skip_if)
 
-    # Update locals (as `val` is not a builtin)
-    _locals[operand_2] = skip_if.val
+    if type(val) in (int, str) and skip_if.op not in ('is', 'is not'):
+        return str(skip_if)
+
+    # Otherwise bind the original value in the function's closure. This keeps
+    # the comparison exact for values whose `repr()` is not a valid / equal
+    # expression (NaN, infinity, Enum members, arbitrary objects), and for
+    # unhashable values such as lists and dicts.
+    _locals[operand_2] = val
     return f'{skip_if.op} {operand_2}'
